@@ -161,6 +161,143 @@ def ob_negative_age(s0: int, t0: int, age: int) -> bool:
     return H.verdict(False, "negative age_limit accepted")
 
 
+E2E_SRC = "LOG = []\ndef f(a, pad):\n    LOG.append(a)\n    return ('r', a, 'x' * pad)\n"
+
+
+def ob_e2e(perm: int, big: int, ghost: int, lim_kind: int, lim: int) -> bool:
+    """
+    pre: 0 <= perm <= 5
+    pre: 0 <= big <= 7
+    pre: 0 <= ghost <= 2
+    pre: 0 <= lim_kind <= 2
+    pre: 0 <= lim <= 4
+    post: _
+    """
+    H.enter()
+    H.assume(lim_kind == H.P("lim_kind", 0))
+    pm, bg, gh, lk, lv = H.select(perm, 0, 5), H.select(big, 0, 7), H.select(ghost, 0, 2), H.select(lim_kind, 0, 2), H.select(lim, 0, 4)
+    with H.native():
+        return H.verdict(_e2e(pm, bg, gh, lk, lv))
+
+
+def _e2e(pm, bg, gh, lk, lv):
+    """Memory.reduce_size end to end on the model file system: 3 real entries (access order = permutation pm, payload
+    sizes by bitmask bg), optionally a 'ghost' entry directory without output.pkl (gh=1: metadata only, gh=2: empty),
+    one limit kind (items / bytes / age) with value selector lv."""
+    import datetime
+    import itertools
+    import re
+    from symx.stubs import fakefs
+    from harness import memlib
+    fs = fakefs.FS()
+    clock = memlib.Clock()
+    with memlib.env(fs, clock):
+        memlib.fresh_process()
+        ns = memlib.define(fs, "c18mod", E2E_SRC)
+        mem = memlib.new_memory()
+        g = mem.cache(ns["f"])
+        pads = [600 if (bg >> i) & 1 else 5 for i in range(3)]
+        for a in range(3):
+            g(a, pads[a])
+        func_dir = [d for d in fs.dirs if d.endswith("/c18mod/f")][0]
+        entries = sorted(d for d in fs.dirs if re.fullmatch("[a-f0-9]{32}", d.rsplit("/", 1)[1]))
+        # map entry -> argument
+        arg_of = {}
+        for a in range(3):
+            cid = g._get_args_id(a, pads[a])
+            arg_of[func_dir + "/" + cid] = a
+        order = list(itertools.permutations(range(3)))[pm]          # order[i] = argument accessed i-th (oldest first)
+        now = 10 ** 6
+        for rank, a in enumerate(order):
+            d = [e for e in entries if arg_of[e] == a][0]
+            for p in list(fs.files):
+                if p.startswith(d + "/"):
+                    fs.atime[p] = now - 1000 * (3 - rank)
+            fs.atime[d] = now - 1000 * (3 - rank)
+        if gh:
+            ghost = func_dir + "/" + "0" * 32
+            fs.dirs.add(ghost)
+            fs.atime[ghost] = now - 10 ** 5          # the oldest of all
+            if gh == 1:
+                fs.files[ghost + "/metadata.json"] = b'{"duration": 0.1, "time": 1.0}'
+                fs.atime[ghost + "/metadata.json"] = now - 10 ** 5
+
+        def inventory():
+            inv = []
+            for d in sorted(fs.dirs):
+                if re.fullmatch("[a-f0-9]{32}", d.rsplit("/", 1)[1]):
+                    files = [p for p in fs.files if p.startswith(d + "/")]
+                    out = d + "/output.pkl"
+                    at = fs.atime.get(out, fs.atime.get(d, 0)) if out in fs.files else fs.atime.get(d, 0)
+                    inv.append((d, sum(len(fs.files[p]) for p in files), at))
+            return inv
+        before = inventory()
+        sizes = sorted(s for _, s, _ in before)
+        total = sum(sizes)
+        kw = {}
+        import joblib._store_backends as sb
+
+        class _Now:
+            @staticmethod
+            def now():
+                return datetime.datetime.fromtimestamp(now)
+        saved_dt = sb.datetime
+        sb.datetime = type("dt", (), {"datetime": type("d", (), {"now": _Now.now, "fromtimestamp": datetime.datetime.fromtimestamp}),
+                                      "timedelta": datetime.timedelta})
+        try:
+            if lk == 0:
+                kw["items_limit"] = lv
+            elif lk == 1:
+                kw["bytes_limit"] = [0, sizes[0], total - sizes[0], total, total + 1][lv]
+            else:
+                kw["age_limit"] = datetime.timedelta(seconds=[0, 1500, 2500, 3500, 10 ** 6][lv])
+            mem.reduce_size(**kw)
+        finally:
+            sb.datetime = saved_dt
+        after = inventory()
+        kept = {d for d, _, _ in after}
+        evicted = [x for x in before if x[0] not in kept]
+        ok = True
+        if "items_limit" in kw and len(after) > kw["items_limit"]:
+            H.note("items_limit=%d but %d entries remain (%r)" % (kw["items_limit"], len(after), [d[-6:] for d, _, _ in after]))
+            ok = False
+        if "bytes_limit" in kw and sum(s for _, s, _ in after) > kw["bytes_limit"]:
+            H.note("bytes_limit=%d but %d bytes remain" % (kw["bytes_limit"], sum(s for _, s, _ in after)))
+            ok = False
+        if "age_limit" in kw:
+            dl = now - kw["age_limit"].total_seconds()
+            if any(at < dl for _, _, at in after):
+                H.note("age_limit: an entry older than the limit remains")
+                ok = False
+        for e in evicted:
+            for k in after:
+                if e[2] > k[2]:
+                    H.note("evicted %s (atime %r) is more recent than survivor %s (%r)" % (e[0][-6:], e[2], k[0][-6:], k[2]))
+                    ok = False
+        if evicted:
+            last = max(evicted, key=lambda x: x[2])
+            k2 = after + [last]
+            viol = ("items_limit" in kw and len(k2) > kw["items_limit"]) or \
+                   ("bytes_limit" in kw and sum(s for _, s, _ in k2) > kw["bytes_limit"]) or \
+                   ("age_limit" in kw and last[2] <= now - kw["age_limit"].total_seconds())
+            if not viol:
+                H.note("eviction not minimal: %s could have stayed (%r)" % (last[0][-6:], kw))
+                ok = False
+        # survivors stay loadable, evicted ones are recomputed on demand
+        for d, a in arg_of.items():
+            del ns["LOG"][:]
+            v = g(a, pads[a])
+            if v != ("r", a, "x" * pads[a]):
+                H.note("entry for %d returned %r" % (a, v))
+                ok = False
+            if (d in kept) != (ns["LOG"] == []):
+                H.note("entry for %d: on disk after reduce_size=%r but body ran=%r" % (a, d in kept, bool(ns["LOG"])))
+                ok = False
+        if not ok:
+            H.note("access order %r pads %r ghost %d limits %r" % (order, pads, gh, kw))
+        return ok
+
+
 def lemma_memstr_fp(params):
     """int(1024^k * float(n)) == 1024^k * n for every integral double n in [0, 2^40], k in 1..3."""
     import time
@@ -235,6 +372,10 @@ def obligations(tier, seed):
     for unit in ("K", "M", "G"):
         obs.append({"name": "strlimit/%s" % unit, "fn": "ob_strlimit", "params": {"unit": unit}, "timeout": 120,
                     "bounds": "bytes_limit = '<n>%s', n in 0..3, 3 items with symbolic sizes/times" % unit})
+    for lk, nm in enumerate(("items", "bytes", "age")):
+        obs.append({"name": "e2e/%s" % nm, "fn": "ob_e2e", "mode": "S", "timeout": 600, "params": {"lim_kind": lk},
+                    "bounds": "Memory.reduce_size on the model file system: 3 entries in any access order, small/large "
+                              "payloads, optional entry directory without output.pkl, %s limit at 5 boundary values" % nm})
     obs.append({"name": "negative_age", "fn": "ob_negative_age", "timeout": 30, "bounds": "age < 0 => ValueError"})
     obs.append({"name": "lemma/memstr_fp", "fn": "lemma_memstr_fp", "kind": "lemma", "timeout": 120,
                 "bounds": "integral doubles n in [0, 2^40], units K/M/G"})
